@@ -43,6 +43,7 @@ fn run_object<T: DeserializeOwned + Serialize>(rep: &mut Report, spec: &ObjSpec,
     // ---- round trips
     for fmt in ["json", "bincode"] {
         rep.evaluations += 1;
+        rep.case(&format!("rt|{}|{}|{}|{}", spec.name, container, fmt, ov));
         let r = if fmt == "json" { json_decode::<T>(&serde_json::to_string(original).unwrap()) } else { bin_decode::<T>(&bincode::serialize(original).unwrap()) };
         match r {
             Ok(Ok(v)) => if v != ov { rep.fail(&format!("{}<{}>: {} round trip yields a different object", spec.name, container, fmt), json!({"original": ov, "decoded": v})); },
@@ -64,6 +65,7 @@ fn run_object<T: DeserializeOwned + Serialize>(rep: &mut Report, spec: &ObjSpec,
         let fv = if carrier == "seq" { json!(bytes) } else { json!(bytes.iter().map(|b| (b'a' + b % 26) as char).collect::<String>()) };
         v[fname] = fv;
         rep.evaluations += 1;
+        rep.case(&format!("{}|{}|{}", spec.name, container, c));
         let got = json_decode::<T>(&serde_json::to_string(&v).unwrap());
         judge(rep, spec, container, &format!("json {}", carrier), fname, count, want_ok, got);
         // bincode carries byte strings and sequences of u8 identically: one case per count
